@@ -998,7 +998,7 @@ func (client *client) publishHandler(pub *packets.Publish) *codes.Error {
 	msg = gmqtt.MessageFromPublish(pub)
 
 	if client.version == packets.Version5 && pub.Properties.TopicAlias != nil {
-		if *pub.Properties.TopicAlias >= client.opts.ServerTopicAliasMax {
+		if *pub.Properties.TopicAlias > client.opts.ServerTopicAliasMax {
 			return &codes.Error{
 				Code: codes.TopicAliasInvalid,
 			}
